@@ -5,10 +5,14 @@ set -u
 PATCH="$(readlink -f "$1")"; shift
 PROPS=("$@")
 if [ ${#PROPS[@]} -eq 0 ]; then PROPS=(C01 C02 C03 C04 C05 C06 C07 C08 C09 C10 C11 C12 C13 C14 C15 C16 C17 C18); fi
-if ! git -C /repo diff --quiet; then echo "/repo has uncommitted changes; refusing"; exit 2; fi
-git -C /repo apply "$PATCH" || { echo "patch does not apply"; exit 2; }
-trap 'git -C /repo checkout -- . ; rm -f /verif/replays/found/*; ( cd /verif/harness && cargo build --offline --features hooks --bin lolv >/dev/null 2>&1 )' EXIT
-cd /verif
+# LOLV_REPO: the lol-html checkout the harness is built against (default /repo; a snapshot run
+# points its Cargo.toml files and this variable at its own copy)
+REPO="${LOLV_REPO:-/repo}"
+ROOT="$(cd "$(dirname "$0")/.." && pwd)"
+if ! git -C "$REPO" diff --quiet; then echo "$REPO has uncommitted changes; refusing"; exit 2; fi
+git -C "$REPO" apply "$PATCH" || { echo "patch does not apply"; exit 2; }
+trap 'git -C "$REPO" checkout -- . ; rm -f "$ROOT"/replays/found/*; ( cd "$ROOT/harness" && cargo build --offline --features hooks --bin lolv >/dev/null 2>&1 )' EXIT
+cd "$ROOT"
 DET=(); MISS=(); INC=()
 for p in "${PROPS[@]}"; do
   out=$(./check "$p" --tier quick 2>&1); rc=$?
